@@ -1,12 +1,15 @@
 //! C04 — inferred formatting bounds on generics are sufficient and not excessive.
 //!
 //! Generated generic structs/enums deriving a fmt trait; every type parameter has a *plan*: formatted under
-//! one trait X (through fields whose types mention it, referenced in the documented ways), unformatted
-//! (unreferenced / skipped / behind a default shared literal), or used only inside a user expression for which
-//! the case supplies `bound(..)`. Oracle inside the program: (sufficiency) the item compiles with no other user
-//! bound; (non-excess) the impl exists when unformatted parameters are `NoFmt` and formatted ones implement
-//! exactly their trait (`OnlyX`); (bound(..) kept) the impl does *not* exist when the user-bounded parameter does
-//! not implement the user's trait. Existence is probed with the autoref-free inherent-const trick at run time.
+//! one trait X or under two traits X and Y (through fields whose types mention it, referenced in the documented ways),
+//! formatted through a field type that implements the trait whatever the parameter is (`*const P`, `fn(P) -> u8`),
+//! formatted through its projection `P::Out` (the item declares `P: Assoc`), unformatted (unreferenced / skipped /
+//! behind a default shared literal), or used only inside a user expression for which the case supplies `bound(..)`.
+//! Oracle inside the program: (sufficiency) the item compiles with no other user bound; (non-excess) the impl exists
+//! when unformatted parameters are `NoFmt` and formatted ones implement exactly their trait(s) (`OnlyX`, `OnlyXY`);
+//! (needed) the impl does *not* exist when a formatted parameter implements none / only one of its traits;
+//! (bound(..) kept) the impl does *not* exist when the user-bounded parameter does not implement the user's trait.
+//! Existence is probed with the autoref-free inherent-const trick at run time.
 use super::core::*;
 use super::p02::FMT_TRAITS;
 use super::proggen::CaseResult;
@@ -28,6 +31,15 @@ pub mod c04 {
     )* } }
     only!(OnlyDisplay Display, OnlyDebug Debug, OnlyBinary Binary, OnlyOctal Octal, OnlyLowerHex LowerHex, OnlyUpperHex UpperHex,
           OnlyLowerExp LowerExp, OnlyUpperExp UpperExp, OnlyPointer Pointer);
+    /// implement exactly two formatting traits
+    macro_rules! two { ($($n:ident $a:ident $b:ident),*) => { $(
+        pub struct $n(pub u8);
+        impl fmt::$a for $n { fn fmt(&self, f: &mut fmt::Formatter<'_>) -> fmt::Result { f.write_str(stringify!($n)) } }
+        impl fmt::$b for $n { fn fmt(&self, f: &mut fmt::Formatter<'_>) -> fmt::Result { f.write_str(stringify!($n)) } }
+    )* } }
+    two!(OnlyDisplayLowerHex Display LowerHex, OnlyDisplayDebug Display Debug, OnlyDebugLowerHex Debug LowerHex,
+         OnlyBinaryLowerExp Binary LowerExp, OnlyOctalUpperHex Octal UpperHex, OnlyDisplayPointer Display Pointer,
+         OnlyDebugBinary Debug Binary);
     /// wrapper implementing each formatting trait iff its parameter does
     pub struct W<T>(pub T);
     macro_rules! wrap { ($($tr:ident),*) => { $(
@@ -39,6 +51,13 @@ pub mod c04 {
     /// projection whose *self type is concrete* and whose parameter only occurs in the trait's arguments
     pub trait AssocArg<T> { type Out; }
     impl<T> AssocArg<T> for u8 { type Out = W<T>; }
+    /// trait objects mentioning the parameter in the trait's arguments / in an associated-type binding; the object
+    /// types implement Display/Debug iff the parameter does
+    pub trait DynTr<T> { fn get(&self) -> &T; }
+    impl<'a, T: fmt::Display> fmt::Display for dyn DynTr<T> + 'a { fn fmt(&self, f: &mut fmt::Formatter<'_>) -> fmt::Result { fmt::Display::fmt(self.get(), f) } }
+    impl<'a, T: fmt::Debug> fmt::Debug for dyn DynTr<T> + 'a { fn fmt(&self, f: &mut fmt::Formatter<'_>) -> fmt::Result { fmt::Debug::fmt(self.get(), f) } }
+    pub trait DynAssoc { type Item; fn get(&self) -> &Self::Item; }
+    impl<'a, T: fmt::Debug> fmt::Debug for dyn DynAssoc<Item = T> + 'a { fn fmt(&self, f: &mut fmt::Formatter<'_>) -> fmt::Result { fmt::Debug::fmt(self.get(), f) } }
 }
 pub use c04::*;
 /// `impls!(Type: Trait)` — does `Type` implement `Trait`? (stable; inherent associated const shadows the trait's)
@@ -57,10 +76,50 @@ macro_rules! impls {
 enum Plan {
     /// formatted under the trait with this type string ("" Display, "?" Debug, "x" ...)
     Fmt(&'static str),
+    /// formatted under two different traits
+    Fmt2(&'static str, &'static str),
+    /// formatted under a trait its field type implements whatever the parameter is (`*const P`, `fn(P) -> u8`): the
+    /// inferred bound holds for every instantiation
+    FmtFree(&'static str),
+    /// the item declares `P: Assoc`; the formatted field is the projection `P::Out`
+    FmtAssoc(&'static str),
     Unfmt,
     /// used only through `.show()` in an argument expression; the case adds `bound(P: Show)`
     UserBound,
 }
+
+impl Plan {
+    /// type strings under which fields of this parameter are formatted
+    fn tys(&self) -> Vec<&'static str> {
+        match self {
+            Plan::Fmt(t) | Plan::FmtFree(t) | Plan::FmtAssoc(t) => vec![*t],
+            Plan::Fmt2(a, b) => vec![*a, *b],
+            Plan::Unfmt | Plan::UserBound => vec![],
+        }
+    }
+    /// minimal instantiation: implements exactly what the plan needs
+    fn good(&self) -> String {
+        match self {
+            Plan::Fmt(t) => only_of(t),
+            Plan::Fmt2(a, b) => format!("Only{}{}", trait_of(a), trait_of(b)),
+            Plan::FmtFree(_) | Plan::Unfmt => "NoFmt".into(),
+            Plan::FmtAssoc(t) => format!("W<{}>", only_of(t)),
+            Plan::UserBound => "OnlyShow".into(),
+        }
+    }
+    /// instantiations lacking (one of) the needed trait(s): the impl must not exist for them
+    fn bad(&self) -> Vec<String> {
+        match self {
+            Plan::Fmt(_) => vec!["NoFmt".into()],
+            Plan::Fmt2(a, b) => vec![only_of(a), only_of(b)],
+            Plan::FmtAssoc(_) => vec!["W<NoFmt>".into()],
+            Plan::UserBound => vec!["NoFmt".into()],
+            Plan::FmtFree(_) | Plan::Unfmt => vec![],
+        }
+    }
+}
+
+const PAIRS: [(&str, &str); 7] = [("", "x"), ("", "?"), ("?", "x"), ("b", "e"), ("o", "X"), ("", "p"), ("?", "b")];
 
 fn trait_of(ty: &str) -> &'static str {
     super::lit::trait_of_ty(ty).unwrap()
@@ -70,8 +129,14 @@ fn only_of(ty: &str) -> String {
     format!("Only{}", trait_of(ty))
 }
 
-/// field type forms mentioning parameter `p` that implement trait `ty` whenever `p` does
-fn forms_for(ty: &str, p: &str, d: &mut Dice, lt: &mut bool) -> String {
+/// side conditions collected while types are chosen
+#[derive(Default)]
+struct Cx {
+    lt: bool,
+}
+
+/// field type forms mentioning parameter `p` that implement every trait of `tys` whenever `p` does (and only then)
+fn forms_for(tys: &[&'static str], p: &str, d: &mut Dice, cx: &mut Cx) -> String {
     let mut forms: Vec<String> = vec![
         p.to_string(),
         format!("W<{p}>"),
@@ -79,21 +144,51 @@ fn forms_for(ty: &str, p: &str, d: &mut Dice, lt: &mut bool) -> String {
         format!("<W<{p}> as Assoc>::Out"),
         format!("<u8 as AssocArg<{p}>>::Out"),
         format!("W<<u8 as AssocArg<{p}>>::Out>"),
+        // a parenthesised type
+        format!("({p})"),
     ];
-    if ty.is_empty() || ty == "?" {
+    if tys.iter().all(|t| t.is_empty() || *t == "?") {
         // std implements only Display/Debug/Pointer for Box<T>
         forms.push(format!("Box<{p}>"));
+        // a trait object with the parameter among the trait's generic arguments
+        forms.push(format!("Box<dyn DynTr<{p}>>"));
     }
-    if ty == "?" {
-        forms.extend([format!("Vec<{p}>"), format!("Option<{p}>"), format!("[{p}; 2]"), format!("({p}, u8)"), format!("Box<[{p}]>")]);
+    if tys == ["?"] {
+        forms.extend([
+            format!("Vec<{p}>"),
+            format!("Option<{p}>"),
+            format!("[{p}; 2]"),
+            format!("({p}, u8)"),
+            format!("Box<[{p}]>"),
+            // ... and in an associated-type binding
+            format!("Box<dyn DynAssoc<Item = {p}>>"),
+        ]);
     }
     // `&'a P` is kept rare: together with another formatted `P` field under the same trait it runs into the recorded
     // finding c04-ref-field-bound-shadows-blanket-impl and the whole case then fails to compile
-    if d.chance(6) {
-        *lt = true;
+    // (never under Pointer: `&T: Pointer` holds for every `T`)
+    if !tys.contains(&"p") && d.chance(4) {
+        cx.lt = true;
         format!("&'a {p}")
     } else {
         forms[d.pick(forms.len())].clone()
+    }
+}
+
+/// field type for a plan
+fn type_for(plan: &Plan, p: &str, d: &mut Dice, cx: &mut Cx) -> String {
+    match plan {
+        Plan::Fmt(t) => forms_for(&[*t], p, d, cx),
+        Plan::Fmt2(a, b) => forms_for(&[*a, *b], p, d, cx),
+        Plan::FmtFree(_) => [format!("*const {p}"), format!("*mut {p}"), format!("fn({p}) -> u8"), format!("fn() -> {p}")][d.pick(4)].clone(),
+        Plan::FmtAssoc(t) => {
+            let mut forms = vec![format!("{p}::Out"), format!("<{p} as Assoc>::Out"), format!("W<{p}::Out>")];
+            if *t == "?" {
+                forms.push(format!("Vec<{p}::Out>"));
+            }
+            forms[d.pick(forms.len())].clone()
+        }
+        Plan::Unfmt | Plan::UserBound => unreachable!(),
     }
 }
 
@@ -107,10 +202,20 @@ struct Container {
 
 const FNAMES: [&str; 5] = ["a", "b", "c", "r#type", "x"];
 
-/// Builds one struct-like container over the given parameter plans. `force_all_used`: every parameter must occur in a field.
-fn gen_container(d: &mut Dice, attr: &str, derived_ty: &'static str, plans: &mut Vec<(String, Plan)>, lt: &mut bool, labels: &mut Vec<String>, allow_no_attr_single: bool) -> Container {
+/// Builds one struct-like container over the given parameter plans: every parameter gets at least one field.
+#[allow(clippy::too_many_arguments)]
+fn gen_container(
+    d: &mut Dice,
+    attr: &str,
+    derived_ty: &'static str,
+    plans: &mut Vec<(String, Plan)>,
+    cx: &mut Cx,
+    labels: &mut Vec<String>,
+    allow_no_attr_single: bool,
+    force_named: Option<bool>,
+) -> Container {
     let is_debug = attr == "debug";
-    let named = d.chance(50);
+    let named = force_named.unwrap_or_else(|| d.chance(50));
     let mut c = Container { attrs: vec![], fields: vec![], named };
     let fname = |i: usize, named: bool| -> (Option<String>, String) {
         if named {
@@ -124,86 +229,123 @@ fn gen_container(d: &mut Dice, attr: &str, derived_ty: &'static str, plans: &mut
         let (pn, plan) = &mut plans[0];
         if *plan == Plan::Unfmt || matches!(plan, Plan::Fmt(t) if *t == derived_ty) {
             *plan = Plan::Fmt(derived_ty);
-            let t = forms_for(derived_ty, pn, d, lt);
+            let t = forms_for(&[derived_ty], pn, d, cx);
             c.fields.push((vec![], fname(0, named).0, t));
             labels.push("implicit_single_field".into());
             return c;
         }
     }
-    // fields: every parameter of this container gets at least one field
     let mut pieces: Vec<String> = vec![];
     let mut args: Vec<String> = vec![];
     let mut extra_bounds: Vec<String> = vec![];
+    // Debug fields formatted without a container literal (plain Debug, field-level format, a neighbour's format):
+    // (reference name, type string). If the container ends up with a literal, the literal has to format them.
+    let mut deferred: Vec<(String, &'static str)> = vec![];
     let n_extra = d.range(0, 2);
     let mut order: Vec<usize> = (0..plans.len()).collect();
     for _ in 0..n_extra {
         order.push(d.pick(plans.len()));
     }
     let mut lit_needed = !is_debug;
+    let spec_of = |ty: &str| if ty.is_empty() { String::new() } else { format!(":{ty}") };
     for (i, pi) in order.iter().enumerate() {
         let (pn, plan) = plans[*pi].clone();
         let (decl_name, ref_name) = fname(i, named);
         let raw_name = decl_name.clone().unwrap_or(ref_name.clone());
         match plan {
-            Plan::Fmt(ty) => {
-                let t = forms_for(ty, &pn, d, lt);
-                let mut fattrs = vec![];
-                if is_debug && ty == "?" && !lit_needed_for_debug(&c) && d.chance(60) {
-                    // plain derived Debug of the field
-                } else if is_debug && named && d.chance(30) {
-                    // formatted only through the attribute of a *non-generic* neighbour field (debug.md: a field format may
-                    // use any field); the generic field itself is skipped
-                    c.fields.push((vec!["#[debug(skip)]".to_string()], decl_name, t));
-                    c.fields.push((vec![format!("#[debug(\"{{:{ty}}}\", {raw_name})]")], Some(format!("n{i}")), "u8".to_string()));
-                    labels.push("field_format_on_non_generic_neighbour".into());
-                    continue;
-                } else if is_debug && d.chance(50) {
-                    // field-level format
-                    fattrs.push(format!("#[debug(\"{{:{ty}}}\", {raw_name})]"));
-                    labels.push("field_level_format".into());
-                    c.fields.push((fattrs, decl_name, t));
-                    continue;
-                } else {
-                    lit_needed = true;
+            Plan::Fmt(_) | Plan::Fmt2(..) | Plan::FmtFree(_) | Plan::FmtAssoc(_) => {
+                let tys = plan.tys();
+                let t = type_for(&plan, &pn, d, cx);
+                match &plan {
+                    Plan::Fmt2(..) => labels.push("two_traits_one_parameter".into()),
+                    Plan::FmtFree(_) => labels.push("formatted_type_needs_nothing_of_parameter".into()),
+                    Plan::FmtAssoc(_) => labels.push("projection_of_parameter".into()),
+                    _ => {}
                 }
-                if lit_needed || !is_debug {
-                    // reference it from the container literal in one of the documented ways
-                    let spec = if ty.is_empty() { String::new() } else { format!(":{ty}") };
-                    match d.pick(4) {
-                        0 => pieces.push(format!("{{{ref_name}{spec}}}")),
-                        1 => {
-                            // bare identifier argument, implicit position
-                            pieces.push(format!("{{{}{spec}}}", args.iter().filter(|a: &&String| !a.contains(" = ")).count()));
-                            args.push(raw_name.clone());
+                if t.contains("dyn ") {
+                    labels.push("trait_object_field".into());
+                }
+                if t.starts_with('(') && !t.contains(',') {
+                    labels.push("parenthesised_type".into());
+                }
+                let mut in_literal = !is_debug;
+                if is_debug {
+                    let plain_ok = tys == ["?"];
+                    if plain_ok && d.chance(60) {
+                        // plain derived Debug of the field
+                        deferred.push((ref_name.clone(), "?"));
+                        c.fields.push((vec![], decl_name, t));
+                        continue;
+                    } else if named && tys.len() == 1 && d.chance(30) {
+                        // formatted only through the attribute of a *non-generic* neighbour field (debug.md: a field format may
+                        // use any field); the generic field itself is skipped
+                        let ty = tys[0];
+                        c.fields.push((vec!["#[debug(skip)]".to_string()], decl_name, t));
+                        c.fields.push((vec![format!("#[debug(\"{{:{ty}}}\", {raw_name})]")], Some(format!("n{i}")), "u8".to_string()));
+                        labels.push("field_format_on_non_generic_neighbour".into());
+                        deferred.push((ref_name.clone(), ty));
+                        continue;
+                    } else if d.chance(50) {
+                        // field-level format: the field as a bare argument, or named inside the literal (the docs' form)
+                        let fa = if d.chance(50) {
+                            let ph: Vec<String> = tys.iter().map(|ty| format!("{{0{}}}", spec_of(ty))).collect();
+                            format!("#[debug(\"{}\", {raw_name})]", ph.join(" "))
+                        } else {
+                            labels.push("field_level_format_names_field".into());
+                            let ph: Vec<String> = tys.iter().map(|ty| format!("{{{ref_name}{}}}", spec_of(ty))).collect();
+                            format!("#[debug(\"{}\")]", ph.join(" "))
+                        };
+                        labels.push("field_level_format".into());
+                        for ty in &tys {
+                            deferred.push((ref_name.clone(), ty));
                         }
-                        2 => {
-                            let al = format!("al{i}");
-                            pieces.push(format!("{{{al}{spec}}}"));
-                            args.push(format!("{al} = {raw_name}"));
-                            labels.push("alias_to_field".into());
-                        }
-                        _ => {
-                            // twice, and with flags
-                            pieces.push(format!("{{{ref_name}{spec}}}"));
-                            let fl = if ty.is_empty() { ":>4".to_string() } else { format!(":>4{ty}") };
-                            pieces.push(format!("{{{ref_name}{fl}}}"));
+                        c.fields.push((vec![fa], decl_name, t));
+                        continue;
+                    } else {
+                        lit_needed = true;
+                        in_literal = true;
+                    }
+                }
+                if in_literal {
+                    // reference it from the container literal in one of the documented ways, once per trait
+                    for ty in &tys {
+                        let spec = spec_of(ty);
+                        match d.pick(4) {
+                            0 => pieces.push(format!("{{{ref_name}{spec}}}")),
+                            1 => {
+                                // bare identifier argument, by index
+                                pieces.push(format!("{{{}{spec}}}", args.iter().filter(|a: &&String| !a.contains(" = ")).count()));
+                                args.push(raw_name.clone());
+                            }
+                            2 => {
+                                let al = format!("al{i}{}", trait_of(ty).to_lowercase());
+                                pieces.push(format!("{{{al}{spec}}}"));
+                                args.push(format!("{al} = {raw_name}"));
+                                labels.push("alias_to_field".into());
+                            }
+                            _ => {
+                                // twice, and with flags
+                                pieces.push(format!("{{{ref_name}{spec}}}"));
+                                let fl = if ty.is_empty() { ":>4".to_string() } else { format!(":>4{ty}") };
+                                pieces.push(format!("{{{ref_name}{fl}}}"));
+                            }
                         }
                     }
                 }
-                c.fields.push((fattrs, decl_name, t));
+                c.fields.push((vec![], decl_name, t));
             }
             Plan::Unfmt => {
                 let t = [pn.clone(), format!("Vec<{pn}>"), format!("core::marker::PhantomData<{pn}>"), format!("fn({pn}) -> u8"), format!("Option<Box<{pn}>>")][d.pick(5)].clone();
                 let mut fattrs = vec![];
                 if is_debug {
-                    if !lit_needed && d.chance(70) {
+                    if d.chance(70) {
                         fattrs.push(["#[debug(skip)]", "#[debug(ignore)]"][d.pick(2)].to_string());
                         labels.push("skipped_field".into());
-                    } else if !lit_needed {
+                    } else {
                         fattrs.push("#[debug(\"opaque\")]".to_string());
                         labels.push("field_literal_without_reference".into());
                     }
-                    // with a container literal: simply unreferenced
+                    // (with a container literal these attributes are dropped below: the field is simply unreferenced)
                 } else {
                     labels.push("unreferenced_field".into());
                 }
@@ -227,9 +369,16 @@ fn gen_container(d: &mut Dice, attr: &str, derived_ty: &'static str, plans: &mut
         }
     }
     if is_debug && lit_needed {
-        // a Debug container literal replaces the whole output: fields with their own attribute would conflict
+        // a Debug container literal replaces the whole output: fields with their own attribute would conflict, and
+        // whatever was to be formatted field by field has to be formatted by the literal
         for f in c.fields.iter_mut() {
             f.0.clear();
+        }
+        for (rn, ty) in &deferred {
+            pieces.push(format!("{{{rn}{}}}", spec_of(ty)));
+        }
+        if !deferred.is_empty() {
+            labels.push("debug_literal_takes_over_field_formats".into());
         }
     }
     if lit_needed {
@@ -244,15 +393,34 @@ fn gen_container(d: &mut Dice, attr: &str, derived_ty: &'static str, plans: &mut
         let a = if all.is_empty() { String::new() } else { format!(", {}", all.join(", ")) };
         c.attrs.push(format!("#[{attr}(\"{lit}\"{a})]"));
     }
-    for b in extra_bounds {
+    // user bounds: one attribute per predicate, or one attribute listing several predicates (the docs' own form:
+    // `bound(T: MyTrait, U: Trait1 + Trait2)`), optionally with harmless extra predicates and a trailing comma
+    if !extra_bounds.is_empty() {
         let kw = ["bound", "bounds"][d.pick(2)];
-        c.attrs.push(format!("#[{attr}({kw}({b}))]"));
+        if d.chance(50) {
+            let mut preds: Vec<String> = extra_bounds.clone();
+            match d.pick(4) {
+                0 => {}
+                1 => preds = preds.into_iter().map(|p| format!("{p} + Sized")).collect(),
+                2 => preds.push("u8: Copy".to_string()),
+                _ => preds.insert(0, format!("for<'z> &'z {}: Sized", plans[0].0)),
+            }
+            let tc = if d.chance(30) { "," } else { "" };
+            if preds.len() > 1 {
+                labels.push("bound_attribute_lists_several_predicates".into());
+            }
+            if preds.iter().any(|p| p.contains(" + ")) {
+                labels.push("bound_predicate_with_several_traits".into());
+            }
+            c.attrs.push(format!("#[{attr}({kw}({}{tc}))]", preds.join(", ")));
+        } else {
+            for b in extra_bounds {
+                let kw = ["bound", "bounds"][d.pick(2)];
+                c.attrs.push(format!("#[{attr}({kw}({b}))]"));
+            }
+        }
     }
     c
-}
-
-fn lit_needed_for_debug(_c: &Container) -> bool {
-    false
 }
 
 fn render_fields(c: &Container, pubs: bool) -> String {
@@ -275,39 +443,67 @@ fn render_fields(c: &Container, pubs: bool) -> String {
     }
 }
 
+fn is_bound_attr(a: &str) -> bool {
+    a.contains("(bound(") || a.contains("(bounds(")
+}
+
 fn build(d: &mut Dice) -> GenCase {
-    let (tr, attr, derived_ty) = FMT_TRAITS[[0usize, 0, 1, 1, 1, 2, 3, 4, 5, 6, 7][d.pick(11)]];
+    let (tr, attr, derived_ty) = FMT_TRAITS[[0usize, 0, 1, 1, 1, 2, 3, 4, 5, 6, 7, 8][d.pick(12)]];
     let is_debug = attr == "debug";
     let mut labels = vec![format!("trait={tr}")];
     let np = d.range(1, 3);
     let mut plans: Vec<(String, Plan)> = vec![];
-    let tys: &[&'static str] = if is_debug { &["?", "?", "", "x", "b", "e"] } else { &["", "?", "x", "X", "o", "b", "e", "E"] };
+    let tys: &[&'static str] = if is_debug { &["?", "?", "", "x", "b", "e", "p"] } else { &["", "?", "x", "X", "o", "b", "e", "E", "p"] };
+    let pairs: Vec<(&'static str, &'static str)> = PAIRS.iter().copied().filter(|(a, b)| tys.contains(a) && tys.contains(b)).collect();
     for i in 0..np {
-        let plan = match d.weighted(&[5, 3, 2]) {
+        let plan = match d.weighted(&[10, 6, 4, 3, 2, 2]) {
             0 => Plan::Fmt(if d.chance(40) { derived_ty } else { tys[d.pick(tys.len())] }),
             1 => Plan::Unfmt,
-            _ => Plan::UserBound,
+            2 => Plan::UserBound,
+            3 => {
+                let (a, b) = pairs[d.pick(pairs.len())];
+                Plan::Fmt2(a, b)
+            }
+            4 => Plan::FmtAssoc(tys[d.pick(tys.len())]),
+            _ => Plan::FmtFree(["?", "p"][d.pick(2)]),
         };
         plans.push((format!("P{i}"), plan));
     }
-    let mut lt = false;
+    let mut cx = Cx::default();
     let is_enum = d.chance(40);
     let mut item = String::new();
     let name;
     if !is_enum {
         name = "S";
-        let c = gen_container(d, attr, derived_ty, &mut plans, &mut lt, &mut labels, true);
+        let c = gen_container(d, attr, derived_ty, &mut plans, &mut cx, &mut labels, true, None);
         let semi = if c.named { "" } else { ";" };
         item.push_str(&c.attrs.join("\n"));
-        item.push_str(&format!("\npub struct S<{{GENS}}>{}{semi}", render_fields(&c, true)));
+        if c.named {
+            item.push_str(&format!("\npub struct S<{{GENS}}>{{WHERE}}{}", render_fields(&c, true)));
+        } else {
+            item.push_str(&format!("\npub struct S<{{GENS}}>{}{{WHERE}}{semi}", render_fields(&c, true)));
+        }
         labels.push("kind=struct".into());
     } else {
         name = "E";
         labels.push("kind=enum".into());
-        // shared enum-level literal (Display-like only): none / default (no field refs) / wrapping `_variant`
-        let shared = if is_debug { 0 } else { d.weighted(&[5, 3, 3]) };
-        // a default shared literal may itself format the first field of the variants it applies to
+        // shared enum-level literal (Display-like only): none / default / wrapping `_variant` / exactly `{_variant}`
+        let shared = if is_debug { 0 } else { d.weighted(&[5, 3, 3, 1]) };
+        // a default shared literal may itself format a field of the variants it applies to: positional field 0, or a
+        // named field `w`
         let shared_ref_ty: Option<&'static str> = if shared == 1 && d.chance(60) { Some(tys[d.pick(tys.len())]) } else { None };
+        let shared_ref_named = shared_ref_ty.is_some() && d.chance(40);
+        // a wrapping shared literal may format a field as well ("the variant's fields still available by name"): then
+        // every variant is struct-like and has a field `w`
+        let wrap_ty: Option<&'static str> = if shared == 2 && d.chance(50) { Some(tys[d.pick(tys.len())]) } else { None };
+        let mut wrap_param: Option<usize> = None;
+        if let Some(wt) = wrap_ty {
+            wrap_param = plans.iter().position(|(_, pl)| *pl == Plan::Unfmt || *pl == Plan::Fmt(wt));
+            if let Some(k) = wrap_param {
+                plans[k].1 = Plan::Fmt(wt);
+            }
+            labels.push("wrapping_shared_literal_formats_a_field".into());
+        }
         let nv = d.range(1, 3);
         // split the parameters over the variants (each variant gets >= 1 when possible); all must be used somewhere
         let mut variants = vec![];
@@ -320,37 +516,41 @@ fn build(d: &mut Dice) -> GenCase {
             let mut sub: Vec<(String, Plan)> = idx.iter().map(|i| plans[*i].clone()).collect();
             let covered_by_default = shared == 1 && d.chance(50);
             if covered_by_default {
-                // the variant has no attribute of its own: the default shared literal (which references no field) is
-                // its whole output, so none of its fields is formatted
+                // the variant has no attribute of its own: the default shared literal is its whole output, so none of its
+                // fields is formatted, except the one the shared literal names
                 let named = d.chance(50);
                 let mut c = Container { attrs: vec![], fields: vec![], named };
                 let mut fmt_here: Vec<usize> = vec![];
                 if let Some(rty) = shared_ref_ty {
-                    // positional variants: `{_0:ty}` of the shared literal formats field 0
-                    c.named = false;
+                    // `{_0:ty}` / `{w:ty}` of the shared literal formats that field
+                    c.named = shared_ref_named;
+                    let fld = if shared_ref_named { Some("w".to_string()) } else { None };
                     let k0 = sub.iter().position(|(_, pl)| *pl == Plan::Unfmt || *pl == Plan::Fmt(rty));
                     match k0 {
                         Some(k0) => {
                             let pn = sub[k0].0.clone();
-                            let t = forms_for(rty, &pn, d, &mut lt);
-                            c.fields.push((vec![], None, t));
+                            let t = forms_for(&[rty], &pn, d, &mut cx);
+                            c.fields.push((vec![], fld, t));
                             plans[idx[k0]].1 = Plan::Fmt(rty);
                             fmt_here.push(idx[k0]);
                         }
-                        None => c.fields.push((vec![], None, format!("Only{}", trait_of(rty)))),
+                        None => c.fields.push((vec![], fld, format!("Only{}", trait_of(rty)))),
                     }
                     labels.push("default_shared_literal_formats_a_field".into());
+                    if shared_ref_named {
+                        labels.push("default_shared_literal_names_a_named_field".into());
+                    }
                 }
                 for (k, (pn, _)) in sub.iter().enumerate() {
                     let nm = if c.named { Some(FNAMES[k % 5].to_string()) } else { None };
                     c.fields.push((vec![], nm, format!("core::marker::PhantomData<{pn}>")));
                 }
-                // these parameters stay as planned only if something else formats them; record that this use is unformatted
                 labels.push("variant_covered_by_default_shared_literal".into());
                 variants.push((vi, c, idx.clone(), true, fmt_here));
                 continue;
             }
-            let c = gen_container(d, attr, derived_ty, &mut sub, &mut lt, &mut labels, shared != 1);
+            let force_named = if wrap_ty.is_some() { Some(true) } else { None };
+            let c = gen_container(d, attr, derived_ty, &mut sub, &mut cx, &mut labels, shared != 1 && wrap_ty.is_none(), force_named);
             for (k, i) in idx.iter().enumerate() {
                 plans[*i].1 = sub[k].1.clone();
             }
@@ -359,13 +559,8 @@ fn build(d: &mut Dice) -> GenCase {
         }
         // a parameter only used in default-covered variants is unformatted whatever its plan said
         for (pi, p) in plans.iter_mut().enumerate() {
-            let used_fmt = variants.iter().any(|(_, _, _, _, fmt_idx)| fmt_idx.contains(&pi));
-            let used_any = variants.iter().any(|(_, _, idx, _, _)| idx.contains(&pi));
+            let used_fmt = variants.iter().any(|(_, _, _, _, fmt_idx)| fmt_idx.contains(&pi)) || wrap_param == Some(pi);
             if !used_fmt {
-                p.1 = Plan::Unfmt;
-            }
-            if !used_any {
-                // unused parameter: attach it to the first variant as an unformatted phantom field handled below
                 p.1 = Plan::Unfmt;
             }
         }
@@ -375,33 +570,70 @@ fn build(d: &mut Dice) -> GenCase {
             .filter(|(pi, _)| !variants.iter().any(|(_, _, idx, _, _)| idx.contains(pi)))
             .map(|(_, p)| p.0.clone())
             .collect();
+        // the field `w` the wrapping literal formats
+        let w_field = |d: &mut Dice, cx: &mut Cx| -> String {
+            let wt = wrap_ty.unwrap();
+            match wrap_param {
+                Some(k) => forms_for(&[wt], &plans[k].0, d, cx),
+                None => format!("Only{}", trait_of(wt)),
+            }
+        };
         match shared {
             1 => {
                 match shared_ref_ty {
                     Some(rty) => {
                         let spec = if rty.is_empty() { String::new() } else { format!(":{rty}") };
-                        enum_attrs.push(format!("#[{attr}(\"shared {{_0{spec}}}\")]"));
+                        let fld = if shared_ref_named { "w" } else { "_0" };
+                        // text around the placeholder, or the bare placeholder (a delegation)
+                        let (pre, bare) = if d.chance(30) { ("", true) } else { ("shared ", false) };
+                        if bare {
+                            labels.push("default_shared_literal_is_bare_placeholder".into());
+                        }
+                        enum_attrs.push(match d.pick(3) {
+                            0 => format!("#[{attr}(\"{pre}{{{fld}{spec}}}\")]"),
+                            1 => format!("#[{attr}(\"{pre}{{0{spec}}}\", {fld})]"),
+                            _ => format!("#[{attr}(\"{pre}{{al{spec}}}\", al = {fld})]"),
+                        });
                     }
                     None => enum_attrs.push(format!("#[{attr}(\"shared default\")]")),
                 }
                 labels.push("shared=default".into());
             }
             2 => {
-                let spec = "";
-                enum_attrs.push(format!("#[{attr}(\"<{{_variant{spec}}}>\")]"));
+                match wrap_ty {
+                    Some(wt) => {
+                        let spec = if wt.is_empty() { String::new() } else { format!(":{wt}") };
+                        enum_attrs.push(match d.pick(4) {
+                            0 => format!("#[{attr}(\"<{{_variant}}> {{w{spec}}}\")]"),
+                            1 => format!("#[{attr}(\"<{{_variant}}> {{0{spec}}}\", w)]"),
+                            2 => format!("#[{attr}(\"<{{_variant}}> {{al{spec}}}\", al = w)]"),
+                            _ => format!("#[{attr}(\"<{{}}> {{w{spec}}}\", _variant)]"),
+                        });
+                    }
+                    None => enum_attrs.push(format!("#[{attr}(\"<{{_variant}}>\")]")),
+                }
                 labels.push("shared=wrapping".into());
+            }
+            3 => {
+                // exactly `{_variant}`: every variant prints as it would by itself
+                enum_attrs.push(format!("#[{attr}(\"{{_variant}}\")]"));
+                labels.push("shared=variant_only".into());
             }
             _ => {}
         }
         // user bounds declared on variants move to the enum level half of the time (documented placement)
         let mut vtexts = vec![];
-        for (vi, c, _, _, _) in &variants {
+        for (vi, c, _, _, _) in variants.iter_mut() {
+            if wrap_ty.is_some() {
+                let t = w_field(d, &mut cx);
+                c.fields.push((vec![], Some("w".to_string()), t));
+            }
             let mut attrs = c.attrs.clone();
             // the docs show `bound(..)` on the item ("in the struct/enum definition"): for enums it goes on the enum;
             // the Display-like derives also take it on a variant (their attribute grammar is the same for struct and variant)
-            let has_bound = attrs.iter().any(|a| a.contains("(bound(") || a.contains("(bounds("));
+            let has_bound = attrs.iter().any(|a| is_bound_attr(a));
             if is_debug || d.chance(60) {
-                let (b, rest): (Vec<String>, Vec<String>) = attrs.into_iter().partition(|a| a.contains("(bound(") || a.contains("(bounds("));
+                let (b, rest): (Vec<String>, Vec<String>) = attrs.into_iter().partition(|a| is_bound_attr(a));
                 attrs = rest;
                 if !b.is_empty() {
                     labels.push("enum_level_bound".into());
@@ -414,78 +646,110 @@ fn build(d: &mut Dice) -> GenCase {
             vtexts.push(format!("    {} V{vi}{fields}", attrs.join(" ")));
         }
         if !unused.is_empty() {
-            let ph: Vec<String> = unused.iter().map(|p| format!("core::marker::PhantomData<{p}>")).collect();
             let at = if is_debug { String::new() } else { format!("#[{attr}(\"phantom\")] ") };
-            vtexts.push(format!("    {at}Ph({})", ph.join(", ")));
+            if wrap_ty.is_some() {
+                let ph: Vec<String> = unused.iter().enumerate().map(|(k, p)| format!("ph{k}: core::marker::PhantomData<{p}>")).collect();
+                let t = w_field(d, &mut cx);
+                vtexts.push(format!("    {at}Ph {{ {}, w: {t} }}", ph.join(", ")));
+            } else {
+                let ph: Vec<String> = unused.iter().map(|p| format!("core::marker::PhantomData<{p}>")).collect();
+                vtexts.push(format!("    {at}Ph({})", ph.join(", ")));
+            }
         }
         item.push_str(&enum_attrs.join("\n"));
-        item.push_str(&format!("\npub enum E<{{GENS}}> {{\n{}\n}}", vtexts.join(",\n")));
+        item.push_str(&format!("\npub enum E<{{GENS}}>{{WHERE}} {{\n{}\n}}", vtexts.join(",\n")));
     }
-    // generics declaration
-    let mut gens: Vec<String> = vec![];
+    let lt = cx.lt;
+    // generics declaration: lifetime, type parameters (with the bounds their plan needs and optional harmless ones, an
+    // optional default on the last one), an optional unused const parameter; optional where-clause
+    let mut where_preds: Vec<String> = vec![];
+    let mut decl: Vec<String> = vec![];
     if lt {
-        gens.push("'a".into());
+        decl.push("'a".into());
     }
-    for (pn, _) in &plans {
-        gens.push(pn.clone());
+    let const_param = d.chance(20);
+    let const_default = const_param && d.chance(50);
+    let type_default = (!const_param || const_default) && d.chance(15);
+    for (i, (pn, plan)) in plans.iter().enumerate() {
+        let mut inline: Vec<String> = vec![];
+        if let Plan::FmtAssoc(_) = plan {
+            if d.chance(50) {
+                inline.push("Assoc".into());
+            } else {
+                where_preds.push(format!("{pn}: Assoc"));
+            }
+        }
+        if d.chance(20) {
+            inline.push(["Sized", "'static", "Sized + 'static"][d.pick(3)].to_string());
+            labels.push("item_inline_bound".into());
+        }
+        let mut s = pn.clone();
+        if !inline.is_empty() {
+            s.push_str(&format!(": {}", inline.join(" + ")));
+        }
+        if type_default && i + 1 == plans.len() {
+            s.push_str(&format!(" = {}", plan.good()));
+            labels.push("item_param_default".into());
+        }
+        decl.push(s);
     }
-    let item = item.replace("{GENS}", &gens.join(", "));
+    if const_param {
+        decl.push(format!("const N: usize{}", if const_default { " = 3" } else { "" }));
+        labels.push("item_const_param".into());
+    }
+    if d.chance(25) {
+        let pn = &plans[0].0;
+        where_preds.push(match d.pick(4) {
+            0 => format!("{pn}: Sized"),
+            1 => format!("Vec<{pn}>: Sized"),
+            2 => format!("for<'z> &'z {pn}: Sized"),
+            _ => "u8: Copy".to_string(),
+        });
+    }
+    if !where_preds.is_empty() {
+        labels.push("item_where_clause".into());
+    }
+    let wh = if where_preds.is_empty() { String::new() } else { format!(" where {}", where_preds.join(", ")) };
+    let item = item.replace("{GENS}", &decl.join(", ")).replace("{WHERE}", &wh);
     // instantiations
-    let inst = |f: &dyn Fn(&Plan) -> String| -> String {
+    let inst = |f: &dyn Fn(usize, &Plan) -> String| -> String {
         let mut v: Vec<String> = vec![];
         if lt {
             v.push("'static".into());
         }
-        for (_, p) in &plans {
-            v.push(f(p));
+        for (i, (_, p)) in plans.iter().enumerate() {
+            v.push(f(i, p));
+        }
+        if const_param {
+            v.push("2".into());
         }
         format!("{name}<{}>", v.join(", "))
     };
-    let good = inst(&|p| match p {
-        Plan::Fmt(t) => only_of(t),
-        Plan::Unfmt => "NoFmt".into(),
-        Plan::UserBound => "OnlyShow".into(),
-    });
+    let good = inst(&|_, p| p.good());
     let trait_path = format!("core::fmt::{tr}");
     let mut checks = format!(
-        "    o.check(\"impl exists with unformatted parameters = NoFmt and formatted ones implementing only their trait: {good}: {tr}\", impls!({good}: {trait_path}));\n"
+        "    o.check(\"impl exists with unformatted parameters = NoFmt and formatted ones implementing only their trait(s): {good}: {tr}\", impls!({good}: {trait_path}));\n"
     );
-    // each formatted parameter is really needed: replacing it by NoFmt must remove the impl (sanity of the model; only when the
-    // field form cannot be formatted otherwise)
+    // each formatted / user-bounded parameter is really needed: an instantiation lacking (one of) its trait(s) must
+    // remove the impl
     for (i, (_, p)) in plans.iter().enumerate() {
-        if let Plan::UserBound = p {
-            let bad = inst(&|_| String::new()).replace(&format!("{name}<"), "");
-            let _ = bad;
-            let mut v: Vec<String> = vec![];
-            if lt {
-                v.push("'static".into());
-            }
-            for (j, (_, q)) in plans.iter().enumerate() {
-                v.push(if j == i {
-                    // satisfies no user trait
-                    "NoFmt".to_string()
-                } else {
-                    match q {
-                        Plan::Fmt(t) => only_of(t),
-                        Plan::Unfmt => "NoFmt".into(),
-                        Plan::UserBound => "OnlyShow".into(),
-                    }
-                });
-            }
-            let t = format!("{name}<{}>", v.join(", "));
-            checks.push_str(&format!(
-                "    o.check(\"user bound(..) is part of the impl's bounds: {t} must not implement {tr}\", !impls!({t}: {trait_path}));\n"
-            ));
+        for bad in p.bad() {
+            let t = inst(&|j, q| if j == i { bad.clone() } else { q.good() });
+            let what = if *p == Plan::UserBound { "user bound(..) is part of the impl's bounds" } else { "the bound of a formatted parameter is part of the impl's bounds" };
+            checks.push_str(&format!("    o.check(\"{what}: {t} must not implement {tr}\", !impls!({t}: {trait_path}));\n"));
         }
     }
     let body = format!("#[derive(derive_more::{tr})]\n{item}\npub fn run(o: &mut Out) {{\n{checks}}}", item = item.trim_start_matches('\n'));
     let n_unfmt = plans.iter().filter(|p| p.1 == Plan::Unfmt).count();
-    let n_fmt = plans.iter().filter(|p| matches!(p.1, Plan::Fmt(_))).count();
+    let n_fmt = plans.iter().filter(|p| !p.1.tys().is_empty()).count();
     if n_unfmt > 0 {
         labels.push("has_unformatted_param".into());
     }
     if plans.iter().any(|p| p.1 == Plan::UserBound) {
         labels.push("has_user_bound".into());
+    }
+    if plans.iter().any(|p| p.1.tys().contains(&"p")) || body.contains(":p}") {
+        labels.push("pointer_placeholder".into());
     }
     if lt {
         labels.push("has_lifetime".into());
@@ -494,6 +758,8 @@ fn build(d: &mut Dice) -> GenCase {
     if composite {
         labels.push("param_in_composite_type".into());
     }
+    labels.sort();
+    labels.dedup();
     let mut c = GenCase::new(body);
     c.nontrivial = (n_unfmt > 0 && n_fmt > 0) || composite || labels.iter().any(|l| l.starts_with("shared="));
     c.labels = labels;
@@ -519,13 +785,13 @@ pub fn prop() -> DiceProp {
         crate_attrs: String::new(),
         nightly: false,
         check_only: false,
-        ndice: 200,
+        ndice: 240,
         quick: (8000, 1),
         thorough: (5000, 8),
         build,
         fixed: no_fixed,
         classify,
-        rule: "generic structs and enums (1..3 type parameters, optional lifetime) deriving Display-like traits or Debug; each parameter is planned as formatted under one trait (through field types P, W<P>, Box<P>, &'a P, <W<P> as Assoc>::Out, and for Debug Vec/Option/array/tuple/boxed slice), unformatted (unreferenced, skipped, PhantomData, fn pointer, behind a default shared enum literal) or used only in an argument expression with a user `bound(..)`/`bounds(..)` (struct, variant or enum level); references by name, by bare-identifier argument, by alias, repeated and with flags; implicit single-field delegation; field-level debug formats; shared enum literals (default and `_variant`-wrapping). Oracle: the item compiles without further bounds, the impl exists for NoFmt/Only<Trait>/OnlyShow instantiations, and does not exist when a user-bounded parameter lacks the user's trait. Non-trivial = at least one formatted and one unformatted parameter, or a parameter nested in a composite type, or a shared enum literal; distinct by program text".into(),
+        rule: "generic structs and enums (1..3 type parameters, optional lifetime, optional inline bounds / where-clause / unused const parameter / defaults) deriving the 8 Display-like traits or Debug; each parameter is planned as formatted under one trait or under two different traits (through field types P, (P), W<P>, Box<P>, Box<dyn DynTr<P>>, &'a P, <W<P> as Assoc>::Out, <u8 as AssocArg<P>>::Out, and for Debug Vec/Option/array/tuple/boxed slice/Box<dyn DynAssoc<Item = P>>), formatted through its projection P::Out (item declares P: Assoc), formatted through a type needing nothing of the parameter (*const P, fn(P) -> u8), unformatted (unreferenced, skipped, PhantomData, fn pointer, behind a default shared enum literal) or used only in an argument expression with a user `bound(..)`/`bounds(..)` (struct, variant or enum level; one predicate per attribute or several in one); references by name, by bare-identifier argument, by alias, repeated and with flags, under every formatting trait incl. Pointer; implicit single-field delegation; field-level debug formats (field as argument or named in the literal); shared enum literals (default, bare default, `_variant`-wrapping, exactly `{_variant}`; default and wrapping ones may format a field by name, by bare argument or by alias). Oracle: the item compiles without further bounds, the impl exists for NoFmt/Only<Trait(s)>/OnlyShow instantiations, does not exist when a formatted parameter lacks (one of) its trait(s), and does not exist when a user-bounded parameter lacks the user's trait. Non-trivial = at least one formatted and one unformatted parameter, or a parameter nested in a composite type, or a shared enum literal; distinct by program text".into(),
         assumptions: vec!["trait-implementation probe via inherent-const-vs-blanket-trait resolution (stable Rust)".into()],
         floors: vec![
             ("has_unformatted_param".into(), 0.2),
@@ -535,6 +801,13 @@ pub fn prop() -> DiceProp {
             ("shared=default".into(), 0.03),
             ("shared=wrapping".into(), 0.03),
             ("alias_to_field".into(), 0.05),
+            ("two_traits_one_parameter".into(), 0.05),
+            ("pointer_placeholder".into(), 0.05),
+            ("projection_of_parameter".into(), 0.03),
+            ("trait_object_field".into(), 0.01),
+            ("wrapping_shared_literal_formats_a_field".into(), 0.01),
+            ("bound_attribute_lists_several_predicates".into(), 0.03),
+            ("item_where_clause".into(), 0.1),
         ],
         shards: 0,
     }
